@@ -106,7 +106,11 @@ def main():
     finally:
         sh(['git', '-C', '/repo', 'worktree', 'remove', '--force', wt])
         shutil.rmtree(wt, ignore_errors=True)
-    # step 2: the checks against /repo with the change applied
+    # step 2: the checks against /repo with the change applied (serialised by a lock so that
+    # concurrent evaluations and developer runs never see each other's patch)
+    import fcntl
+    lock = open('/tmp/nv_repo.lock', 'w')
+    fcntl.flock(lock, fcntl.LOCK_EX)
     outdir = tempfile.mkdtemp(prefix='sv_out_')
     results = {}
     rc, out = sh(['git', '-C', '/repo', 'status', '--porcelain'])
@@ -126,6 +130,7 @@ def main():
     finally:
         sh(['git', '-C', '/repo', 'checkout', '--', '.'])
         shutil.rmtree(outdir, ignore_errors=True)
+        fcntl.flock(lock, fcntl.LOCK_UN)
     caught = [p for p, v in results.items() if v['exit'] == 1]
     errored = [p for p, v in results.items() if v['exit'] == 2]
     meta['checks'] = {'caught_by': caught, 'analysis_error': errored,
